@@ -118,7 +118,70 @@ var oddStrings = []string{
 	"[::ffff:10.0.0.1%z]:9", "%eth0:4",
 }
 
-func genCaller(r *Rand) caller {
+// listenConfigs is the configuration dimension of the portmapper under test (SetListenAddr; Server feeds it
+// from Options.Hostname): unset, the unspecified addresses, specific IPv4 / IPv6 addresses (also spelt as an
+// IPv4-mapped address), loopback addresses, host names.
+var listenConfigs = []string{
+	"", "", "0.0.0.0", "::",
+	"192.168.1.5", "192.168.1.100", "10.0.0.7", "172.16.0.1", "8.8.8.8", "::ffff:192.168.1.100",
+	"fd00::5", "2001:db8::5", "fe80::1",
+	"127.0.0.1", "::1",
+	"localhost", "nfs.example.org",
+}
+
+// listenPeer derives a peer address from the configured listen address: the same IP in every form a
+// net.Addr can carry it (4-byte, 16-byte / IPv4-mapped, UDP, zoned, as the String() of another net.Addr),
+// or a neighbour of it. None of them is local unless the IP itself is a loopback address.
+func listenPeer(r *Rand, listen string) (caller, bool) {
+	ip := net.ParseIP(listen)
+	if ip == nil {
+		return caller{}, false
+	}
+	port := 1 + r.Intn(65535)
+	v4 := ip.To4()
+	x := r.Intn(100)
+	switch {
+	case x < 30: // equal, natural form
+		if v4 != nil {
+			return tcpCaller(net.IP{v4[0], v4[1], v4[2], v4[3]}, "", port, false, "listen.equal"), true
+		}
+		return tcpCaller(ip, "", port, false, "listen.equal"), true
+	case x < 45: // equal, 16-byte form (IPv4-mapped for an IPv4 listen address)
+		return tcpCaller(ip.To16(), "", port, r.Chance(20), "listen.equal.16"), true
+	case x < 55: // equal, zoned
+		return tcpCaller(ip.To16(), PickStr(r, "eth0", "lo"), port, false, "listen.equal.zoned"), true
+	case x < 70: // equal, as the String() of some other net.Addr
+		var c caller
+		switch {
+		case v4 != nil && r.Chance(40):
+			c = otherCaller(fmt.Sprintf("[::ffff:%s]:%d", v4.String(), port))
+		case r.Chance(25):
+			c = otherCaller(net.JoinHostPort(ip.String()+"%eth0", fmt.Sprint(port)))
+		default:
+			c = otherCaller(net.JoinHostPort(ip.String(), fmt.Sprint(port)))
+		}
+		c.kind = "listen.equal.string"
+		return c, true
+	default: // neighbours: one byte of the address changed
+		n := append(net.IP{}, ip.To16()...)
+		if v4 != nil {
+			n = net.IP{v4[0], v4[1], v4[2], v4[3]}
+		}
+		i := len(n) - 1
+		if r.Chance(30) {
+			i = r.Intn(len(n))
+		}
+		n[i] += byte(PickInt(r, 1, 255, 2, 128))
+		return tcpCaller(n, "", port, r.Chance(10), "listen.neighbour"), true
+	}
+}
+
+func genCaller(r *Rand, listen string) caller {
+	if r.Chance(28) {
+		if c, ok := listenPeer(r, listen); ok {
+			return c
+		}
+	}
 	port := 1 + r.Intn(65535)
 	x := r.Intn(100)
 	switch {
@@ -271,8 +334,8 @@ func genXstr(r *Rand, s []byte, tags *[]string) []byte {
 
 type key3 struct{ p, v, t uint32 }
 
-func genCall(r *Rand, pool []key3) event {
-	e := event{kind: 0, c: genCaller(r)}
+func genCall(r *Rand, pool []key3, listen string) event {
+	e := event{kind: 0, c: genCaller(r, listen)}
 	xid := uint32(r.U64())
 	msg := uint32(0)
 	if r.Chance(2) {
@@ -398,10 +461,32 @@ var acceptNames = map[uint32]string{0: "SUCCESS", 1: "PROG_UNAVAIL", 2: "PROG_MI
 
 // probeAllowed asks the implementation, on a scratch Portmapper, whether a caller at addr may modify
 // the registry (a well-formed v2 SET registers its mapping): the observable form of isLoopbackAddr.
-func probeAllowed(addr net.Addr) bool {
+// The scratch Portmapper carries the same listen-address configuration as the one under test.
+func probeAllowed(listen string, addr net.Addr) bool {
 	pm := absnfs.NewPortmapper()
+	if listen != "" {
+		pm.SetListenAddr(listen)
+	}
 	pm.VerifHandleCall(mkCall(1, 2, 1, u32(1, 1, 6, 1)), addr)
 	return len(pm.GetMappings()) == 1
+}
+
+func listenClass(listen string) string {
+	ip := net.ParseIP(listen)
+	switch {
+	case listen == "":
+		return "unset"
+	case ip == nil:
+		return "hostname"
+	case ip.IsUnspecified():
+		return "unspecified"
+	case ip.IsLoopback():
+		return "loopback"
+	case ip.To4() != nil:
+		return "ipv4"
+	default:
+		return "ipv6"
+	}
 }
 
 func runC27(listen string, evs []event, kind string, idx int) Case {
@@ -410,6 +495,7 @@ func runC27(listen string, evs []event, kind string, idx int) Case {
 		pm.SetListenAddr(listen)
 	}
 	tags := map[string]int{"events": len(evs)}
+	tags["listen."+listenClass(listen)]++
 	var coqEvs, coqObs, txt []string
 	for _, e := range evs {
 		before := pm.GetMappings()
@@ -419,7 +505,7 @@ func runC27(listen string, evs []event, kind string, idx int) Case {
 		switch e.kind {
 		case 0:
 			reply, err = pm.VerifHandleCall(e.data, e.c.addr)
-			allow = probeAllowed(e.c.addr)
+			allow = probeAllowed(listen, e.c.addr)
 			coqEvs = append(coqEvs, fmt.Sprintf("Call %s %s", e.c.coq, CB(e.data)))
 			tags["caller."+e.c.kind]++
 			lab := e.label
@@ -449,6 +535,9 @@ func runC27(listen string, evs []event, kind string, idx int) Case {
 			isMod := strings.Contains(e.label, ".SET") || strings.Contains(e.label, ".UNSET")
 			if isMod && !e.c.local {
 				tags["nonlocal.modify.attempt"]++
+				if strings.HasPrefix(e.c.kind, "listen.equal") {
+					tags["listenaddr.peer.modify.attempt"]++
+				}
 			}
 			if isMod && e.c.local {
 				tags["local.modify.attempt"]++
@@ -487,7 +576,10 @@ func runC27(listen string, evs []event, kind string, idx int) Case {
 }
 
 func genC27(r *Rand, idx int, tier string) Case {
-	listen := PickStr(r, "", "", "0.0.0.0", "192.168.1.5", "10.0.0.7", "localhost", "nfs.example.org", "::", strings.Repeat("h", 1+r.Intn(300)))
+	listen := listenConfigs[r.Intn(len(listenConfigs))]
+	if r.Chance(4) {
+		listen = strings.Repeat("h", 1+r.Intn(300))
+	}
 	n := 1 + r.Intn(24)
 	kind := "mixed"
 	pool := make([]key3, 1+r.Intn(4))
@@ -515,7 +607,7 @@ func genC27(r *Rand, idx int, tier string) Case {
 		case x < 8:
 			evs = append(evs, event{kind: 2, p: pick32(r, progPool), v: pick32(r, versPool), t: pick32(r, protPool)})
 		default:
-			evs = append(evs, genCall(r, pool))
+			evs = append(evs, genCall(r, pool, listen))
 		}
 	}
 	return runC27(listen, evs, kind, idx)
@@ -590,6 +682,14 @@ func corpusC27() []Case {
 		runC27("", attack(otherCaller("pipe")), "unparseable-address", 0),
 		runC27("", attack(tcpCaller(net.IP{8, 8, 8, 8}, "", 53, false, "remote4")), "remote-v4", 0),
 		runC27("192.168.1.5", attack(noAddr), "in-process", 0),
+		// peers whose address equals the configured listen address (or a neighbour / IPv4-mapped form of it)
+		// are not loopback callers, whatever the listen address
+		runC27("192.168.1.100", attack(tcpCaller(net.IP{192, 168, 1, 100}, "", 901, false, "listen.equal")), "peer-equals-listen-v4", 0),
+		runC27("192.168.1.100", attack(tcpCaller(net.ParseIP("192.168.1.100"), "", 902, false, "listen.equal.16")), "peer-equals-listen-v4-mapped", 0),
+		runC27("::ffff:192.168.1.100", attack(otherCaller("192.168.1.100:903")), "peer-equals-listen-mapped-config", 0),
+		runC27("fd00::5", attack(tcpCaller(net.ParseIP("fd00::5"), "", 904, true, "listen.equal")), "peer-equals-listen-v6-udp", 0),
+		runC27("192.168.1.100", attack(tcpCaller(net.IP{192, 168, 1, 101}, "", 905, false, "listen.neighbour")), "peer-neighbour-of-listen", 0),
+		runC27("127.0.0.1", attack(tcpCaller(net.IP{127, 0, 0, 1}, "", 906, false, "listen.equal")), "listen-is-loopback", 0),
 		runC27("", statuses, "accept-statuses-and-header-limits", 0),
 		runC27("10.0.0.7", scans, "uaddr-scan-boundaries", 0),
 		runC27("", limits, "string-limits-odd-netids", 0),
